@@ -290,12 +290,15 @@ static void *dequeue(thread_pool_t *interface)
 		pthread_mutex_lock(&pool->mtx);
 		for (;;) {
 			out = try_dequeue_done(pool);
-			if (out != NULL)
+			if (out != NULL || pool->status != 0)
 				break;
 
 			pthread_cond_wait(&pool->done_cond, &pool->mtx);
 		}
 		pthread_mutex_unlock(&pool->mtx);
+
+		if (out == NULL)
+			return NULL;
 	}
 
 	ptr = out->data;
